@@ -22,6 +22,9 @@ REPO = os.environ.get("VERIF_REPO", "/repo")
 PREIMPORTS = [[], ["cryptography.hazmat.backends"], ["ssl"], ["hashlib", "json"],
               ["cryptography.hazmat.primitives.hashes"], ["decimal", "locale"]]
 
+CLOCKS = ["2027-01-31T12:00:00", "2028-02-29T12:00:00", "2027-03-31T23:59:58", "2027-12-31T23:59:58", "2028-01-01T00:00:00",
+          "2027-10-31T01:30:00", "2038-01-19T03:14:07", "2027-05-31T08:00:00", "2027-01-29T00:00:01", "2027-08-31T16:00:00", "2028-02-28T23:59:59"]
+
 configs = st.fixed_dictionaries({
     "PYTHONHASHSEED": st.sampled_from(["0", "1", "4242", "random"]),
     "LC_ALL": st.sampled_from(["C", "C.UTF-8", "POSIX", None]),
@@ -34,6 +37,8 @@ configs = st.fixed_dictionaries({
     "PYTHONCOERCECLOCALE": st.sampled_from([None, "0", "0"]),
     "cwd": st.sampled_from(["root", "scratch"]),
     "preimport": st.sampled_from(PREIMPORTS),
+    # the wall clock of the child (None = the real one): month ends, the leap day, year ends, the 32-bit rollover
+    "clock": st.one_of(st.none(), st.sampled_from(CLOCKS)),
 })
 
 
@@ -59,6 +64,7 @@ def run_child(task, corpus, config, timeout=120):
         env["VERIF_PREIMPORT"] = ",".join(config.get("preimport") or [])
         env["VERIF_LOGGING"] = config.get("logging") or ""
         env["VERIF_STDOUT"] = config.get("stdout") or ""
+        env["VERIF_CLOCK"] = config.get("clock") or ""
         for k, v in (config.get("extra_env") or {}).items():
             env[k] = v
         cwd = "/" if config.get("cwd") == "root" else d
@@ -131,7 +137,45 @@ def _install_env_recorder(reads):
     real.__class__ = Proxy
 
 
+def _install_clock(iso):
+    """Make the child believe it is `iso` (UTC) now: datetime.datetime.now / utcnow / today, datetime.date.today and time.time
+    are shifted by a constant offset, before the library is imported (it binds `datetime` at import time)."""
+    import datetime as _dt
+    import time as _time
+    real_time = _time.time
+    target = _dt.datetime.strptime(iso, "%Y-%m-%dT%H:%M:%S").replace(tzinfo=_dt.timezone.utc).timestamp()
+    offset = target - real_time()
+    real_datetime, real_date = _dt.datetime, _dt.date
+
+    def fake_time():
+        return real_time() + offset
+
+    class FakeDateTime(real_datetime):
+        @classmethod
+        def now(cls, tz=None):
+            return cls.fromtimestamp(fake_time(), tz)
+
+        @classmethod
+        def utcnow(cls):
+            return cls.fromtimestamp(fake_time(), _dt.timezone.utc).replace(tzinfo=None)
+
+        @classmethod
+        def today(cls):
+            return cls.fromtimestamp(fake_time())
+
+    class FakeDate(real_date):
+        @classmethod
+        def today(cls):
+            return cls.fromtimestamp(fake_time())
+
+    FakeDateTime.__name__ = FakeDateTime.__qualname__ = "datetime"
+    FakeDate.__name__ = FakeDate.__qualname__ = "date"
+    _dt.datetime, _dt.date, _time.time = FakeDateTime, FakeDate, fake_time
+
+
 def _child(task, corpus_file, outf):
+    if os.environ.get("VERIF_CLOCK"):
+        _install_clock(os.environ["VERIF_CLOCK"])
     env_reads = set()
     file_opens = []
     if task in ("ambient", "unit"):
